@@ -557,7 +557,7 @@ func runScanProfile(c *Ctx, p scanProfile) {
 			for _, fld := range model.NumericFields {
 				if string(r.JSON[fld]) != string(f.JSON[fld]) {
 					c.AddViolation(Violation{Predicate: "layout_or_date_dependent:" + fld, Spec: "Scan!C09_FunctionOfGraph (relational)",
-						Kind: "scan", Input: map[string]interface{}{"mode": "cli", "case": r.Case},
+						Kind: "scan", Input: map[string]interface{}{"mode": "cli", "case": r.Case, "other": f.Case},
 						Expected: map[string]interface{}{"same_graph_variant": f.Case.ID, "value": string(f.JSON[fld])},
 						Observed: map[string]interface{}{"value": string(r.JSON[fld])}})
 					break
@@ -683,6 +683,22 @@ func replayScan(c *Ctx, raw json.RawMessage) bool {
 			b, _ := json.Marshal(r2.JSON)
 			return string(a) != string(b) || r.Exit != r2.Exit || strings.Contains(r2.Stderr, "Processing")
 		}
+	}
+	if strings.HasPrefix(rp.Predicate, "layout_or_date_dependent") && rp.Input.Other != nil && rp.Input.Mode == "cli" {
+		// relational: the same graph in another storage layout / with other dates / roots in another order
+		r2, err := env.runCLI(*rp.Input.Other, cliOpt{NoTrace: true})
+		if err != nil {
+			Infra("replay: %v", err)
+		}
+		if o.Exit != r2.Exit {
+			return true
+		}
+		for _, f := range model.NumericFields {
+			if string(o.JSON[f]) != string(r2.JSON[f]) {
+				return true
+			}
+		}
+		return false
 	}
 	jc, inRange := o.judgeCase(maxTLCInt, maxTLCInt)
 	if !inRange {
